@@ -265,6 +265,13 @@ def concat_parts(e: ast.AST) -> list[tuple[str, object]]:
 			rec(x.right)
 		elif isinstance(x, ast.Constant) and isinstance(x.value, str):
 			add('const', x.value)
+		elif isinstance(x, ast.Call) and isinstance(x.func, ast.Attribute) and x.func.attr == 'join' and isinstance(x.func.value, ast.Constant) and isinstance(x.func.value.value, str) \
+				and len(x.args) == 1 and isinstance(x.args[0], (ast.List, ast.Tuple)) and not x.keywords and not any(isinstance(v, ast.Starred) for v in x.args[0].elts):
+			# `': '.join([a, b])` is a + ': ' + b
+			for i, v in enumerate(x.args[0].elts):
+				if i:
+					add('const', x.func.value.value)
+				rec(v)
 		else:
 			add('expr', x)
 	rec(e)
